@@ -30,19 +30,26 @@ PROP = dict(
               'Fit.C13.C13_mesg_struct_mesg', 'Fit.C13.C13_struct_mesg_struct', 'Fit.C13.C13_no_panic', 'Fit.C13.C13_unknown_kept',
               'Fit.C13.C13_nil_fieldbase_panics', 'Fit.C13.C13_slot_read_emit', 'Fit.C13.C13_all_messages', 'Fit.C13.C13_mark_as_expanded', 'Fit.C13.C13_spec_valid_is_protocol_valid',
               'Fit.C13.C13_normal_idempotent', 'Fit.C13.C13_normal_is_fixed_point', 'Fit.C13.C13_spec_valid_fixed_arrays',
-              'Fit.C13.C13_mesg_struct_mesg_partial', 'Fit.C13.C13_KF_witnesses', 'Fit.C13.C13_full_is_false'],
-    families=[dict(name='typed', spec=True)],
+              'Fit.C13.C13_mesg_struct_mesg_partial', 'Fit.C13.C13_KF_witnesses', 'Fit.C13.C13_full_is_false',
+              'Fit.C13.C13_struct_mesg_struct_norm', 'Fit.C13.C13_struct_mesg_struct_partial', 'Fit.C13.C13_inRange_iff', 'Fit.C13.C13_normDoc_fixes',
+              'Fit.C13.C13_struct_class_witnesses', 'Fit.C13.C13_struct_full_is_false', 'Fit.C13.C13_dev_fields_kept', 'Fit.C13.C13_KF3_fixed_witness'],
+    families=[dict(name='typed', spec=True, prop=True)],
     trusted_base=STD_TRUST + [
         "fitharness regen mesgdef: the per-message tables (slot kinds, accepted value type, read/emit field number, default, sentinel, emission order, guard, expanded-bitmap bound, eligible numbers) are obtained from the COMPILED code by reflection over the structs and by probing Reset/ToMesg/MarkAsExpandedField/IsExpandedField with one field per number 0..255 x 24 value types and candidate contents per slot; a behaviour the table cannot express fails the translator",
         "translators/registry.py lists every mesgdef.NewXxx by its declaration signature",
         "family typed: structs are built/read by reflection (unsafe only to move float32 bit patterns without quieting NaNs)",
     ],
-    assumptions=["time.Time slots: whole seconds (the property's restriction); uint32(float64) of an out-of-range duration is platform-defined and outside InRange",
+    assumptions=["time.Time slots: whole seconds (the property's own restriction; the model's struct has no sub-second part — measured on the code: uint32(t.Sub(epoch).Seconds()) is a float64 sum truncated, i.e. the floor for small values and the NEXT second e.g. for epoch + 2^24 s + 0.999999999 s)",
+                 "times from epoch + 0xFFFFFFFF s on (class hasTimeBeyond, outside the quantifier): the model follows what amd64 does with uint32(float64) (Go leaves an out-of-range conversion implementation-defined) and the saturation of time.Duration; the family checks it up to epoch + 2^40 s",
                  "a proto.Value built from a nil Go slice has no syntax in the line protocol; the op typednils hands every empty array of its message to the code as a nil slice, and the model reads it as the invalid value (what the accessors return)"],
 )
 
 TEXT = dict(
     technique='Lean 4 proof of generic round-trip / no-panic theorems for ONE table-driven model of the mesgdef template, for every table satisfying a decidable well-formedness predicate; the predicate is kernel-checked on the 119 tables regenerated from the compiled code by reflection and probing; differential tie through the real NewXxx/ToMesg of every message type',
-    text='C13_mesg_struct_mesg (NewXxx(&m).ToMesg(o) = typedNormal m: last occurrence of each known field, kept iff its value has the field\'s type and is not the base type\'s invalid, fixed arrays padded/cut, expanded marks on eligible numbers, unknown and developer fields unchanged and in order), C13_struct_mesg_struct (identity on structs in range: whole-second times in the uint32 range, marks on eligible emitted slots, UnknownFields unknown to the message) and C13_no_panic (any numbers, any value types; only a nil FieldBase panics) are proved once for every table satisfying MesgTable.wf, for all messages/structs/factories/options; wf, coverage of the factory\'s messages and fields, and the standard factory\'s fitness are kernel-checked on the 119 tables regenerated from the compiled code; the family typed runs the real NewXxx/ToMesg of every message type (every slot valid/invalid/boundary x marked, every other value type, field numbers 0..255 named and unknown, random messages with duplicates/unknown/developer fields under 9 option/factory settings, reflection-built structs through ToMesg and back) against model and against typedNormalFull, the normal form the property demands: the code (typedNormal, C13_mesg_struct_mesg) meets it outside two classes (C13_mesg_struct_mesg_partial) and not inside them — a named field whose number the message lacks is dropped (KF-C13-1), the expanded mark of a non-component-target field is not kept (KF-C13-2): C13_KF_witnesses, C13_full_is_false. Second wave: typedNormal is idempotent and its values are fixed points of NewXxx/ToMesg (C13_normal_idempotent, C13_normal_is_fixed_point); fixed-length arrays are kept exactly when Value.Valid holds of the part that fits (C13_spec_valid_fixed_arrays); array values built from nil Go slices read as invalid (op typednils).',
-    note='Trusted: Lean kernel; the probing translator (reflection + probing of the compiled mesgdef package) and the factory dump; harness/driver protocol. Formalisation choices (typedNormal = the code, typedNormalFull = the property, inRange) are stated in FitProps/C13.lean; sub-second times and out-of-range times are outside the struct identity.',
+    text=('Proved once for every table satisfying MesgTable.wf (wf, coverage of the factory, fitness of the standard factory kernel-checked on the 119 tables regenerated from the compiled code), for all messages / structs / factories / options. '
+          'MESSAGE -> STRUCT -> MESSAGE: C13_mesg_struct_mesg (NewXxx(&m).ToMesg(o) = typedNormal m: last occurrence of each known field, kept iff its value has the field\'s type and is not the base type\'s invalid, fixed arrays padded/cut, expanded marks on eligible numbers, unknown fields unchanged and in order), C13_dev_fields_kept (developer fields unchanged for EVERY message type — since /repo 72c2963, the repair of KF-C13-3 which this check reported: the structs of file_id / developer_data_id / field_description had no DeveloperFields), C13_no_panic (any numbers, any value types; only a nil FieldBase panics). Against typedNormalFull, the normal form the property demands, the code is exact outside two classes (C13_mesg_struct_mesg_partial) and not inside them — a named field whose number the message lacks is dropped (KF-C13-1, open), the expanded mark of a non-component-target field is not kept (KF-C13-2, open): C13_KF_witnesses, C13_full_is_false. '
+          'STRUCT -> MESSAGE -> STRUCT: C13_struct_mesg_struct_norm states what comes back for EVERY Go-typed struct whose UnknownFields are unknown to the message type (normStruct). Every class on which that is not the struct itself is a named decidable predicate, decided by running the real code: three are the typed layer\'s documented normalisation (normDoc) — hasBoolOther (a typedef.Bool other than 0/1/255 comes back 255: typedef/bool.go "other value should be treated as invalid"), hasPreEpoch (a time before the FIT epoch comes back time.Time{}: datetime.ToUint32 = invalid), hasMarkOnInvalid (the expanded mark of a slot whose content is invalid, hence not emitted, is gone); two are outside the property\'s quantifier — hasTimeBeyond (a time from epoch + 0xFFFFFFFF s on: not a FIT date_time; comes back time.Time{} resp. modulo 2^32 on amd64), not unknownsOk (UnknownFields holding a field the message type defines, or one without FieldBase); one is a defect — hasStrayBit (a mark on a non-eligible number, which only Reset sets: struct-level face of KF-C13-2). C13_struct_mesg_struct_partial: outside exactly the non-normalising classes the struct comes back as normDoc; C13_struct_mesg_struct: the identity on inRange = none of the classes (C13_inRange_iff); C13_struct_class_witnesses: every class is inhabited and what comes back in each; C13_struct_full_is_false. Sub-second times are outside the property by its own words and outside the model\'s struct. '
+          'Also: typedNormal is idempotent and its values are fixed points (C13_normal_idempotent, C13_normal_is_fixed_point); fixed-length arrays are kept exactly when Value.Valid holds of the part that fits (C13_spec_valid_fixed_arrays); MarkAsExpandedField (C13_mark_as_expanded). '
+          'The family typed runs the real NewXxx/ToMesg of every message type (every slot valid/invalid/boundary x marked, every other value type, field numbers 0..255 named and unknown, random messages with duplicates / unknown / developer fields under 9 option/factory settings, messages at and beyond the 156-field scratch pool for every type, Reset of a used struct with bare messages, nil-slice arrays, reflection-built structs inside and outside inRange incl. Bool bytes 2..254, pre-epoch and far-future times, marks on invalid slots, structs as Reset builds them from marked fields) against the model, against typedNormalFull / normDoc (--spec) and against "no invalid-valued known field is emitted" (--prop).'),
+    note='Trusted: Lean kernel; the probing translator (reflection + probing of the compiled mesgdef package) and the factory dump; harness/driver protocol. Formalisation choices (typedNormal = the code, typedNormalFull / normDoc = the property, the class table) are stated in FitProps/C13.lean and FitModel/Typed.lean; decisions per class with the measured behaviour: notes/model-notes-C13-C17.md.',
 )
